@@ -8,15 +8,17 @@ Open Scope Z_scope.
 Section Low.
   Variable P : forall A : Type, M A -> Prop.
   Arguments P {A} _.
+  (** whether emitting a warning is among the operations ([false]: the strict-mode decoder never does) *)
+  Variable wn : bool.
 
-  Record lclosed : Prop := mkL {
+  Record lclosedW : Prop := mkL {
     l_ret : forall A (a : A), P (ret a);
     l_bind : forall A B (m : M A) (f : A -> M B), P m -> (forall a, P (f a)) -> P (bind m f);
     l_get : P get;
     l_fail : forall A e, P (@fail A e);
     l_internal : forall A k, P (@internal_ A k);
     l_fuel : forall A, P (@fuel_ A);
-    l_emit : forall a, (match a with Rd _ => False | _ => True end) -> P (emit a);
+    l_emit : forall a, (match a with Rd _ => False | Ev _ => True | Wn _ => wn = true end) -> P (emit a);
     l_read1 : P read1;
     l_consume : forall n, P (consume n);
     l_set_sc : forall i c, P (set_sc i c);
@@ -24,9 +26,9 @@ Section Low.
     l_set_lst : forall l, P (set_lst l);
     l_append_lst : forall i, P (append_lst i);
     l_remove_lst : forall i, P (remove_lst i);
-    l_catch : forall A abort ids (m h : M A), P m -> P h -> P (catch_exceeded abort ids m h) }.
+    l_catch : forall A abort ids (m h : M A), (abort = false -> wn = true) -> P m -> P h -> P (catch_exceeded abort ids m h) }.
 
-  Hypothesis L : lclosed.
+  Hypothesis L : lclosedW.
 
   Lemma L_readn n : P (readn n).
   Proof.
@@ -71,42 +73,45 @@ Section Low.
     apply (l_bind L); [apply (l_consume L)|]. intros _. apply (l_fail L).
   Qed.
 
-  Lemma L_set_constraint abort i p n : P (set_constraint abort i p n).
+  Lemma L_set_constraint abort i p n : (abort = false -> wn = true) -> P (set_constraint abort i p n).
   Proof.
+    intros Hab.
     unfold set_constraint. destruct (n <? 0); [apply (l_internal L)|].
     apply (l_bind L); [apply (l_get L)|]. intros s.
     apply (l_bind L); [apply (l_set_sc L)|]. intros _.
     apply (l_bind L); [apply (l_get L)|]. intros s'.
     destruct (anticipate _ _ _ _) as [[ci b]|]; [|apply (l_ret L)].
-    destruct abort; [apply (l_fail L)|apply (l_emit L); exact I].
+    destruct abort; [apply (l_fail L)|apply (l_emit L); apply Hab; reflexivity].
   Qed.
 
-  Lemma L_assert_done abort i : P (assert_done abort i).
+  Lemma L_assert_done abort i : (abort = false -> wn = true) -> P (assert_done abort i).
   Proof.
+    intros Hab.
     unfold assert_done. apply (l_bind L); [apply (l_get L)|]. intros s.
     destruct (sc_max (get_sc s i)); [|apply (l_internal L)].
     destruct (sc_obs (get_sc s i)); [apply (l_ret L)|].
     apply (l_bind L); [apply (l_set_sc L)|]. intros _.
     destruct (_ =? _); [apply (l_ret L)|].
     destruct abort; [apply (l_fail L)|].
-    apply (l_bind L); [apply (l_emit L); exact I|]. intros _.
+    apply (l_bind L); [apply (l_emit L); apply Hab; reflexivity|]. intros _.
     apply (l_bind L); [apply L_bump_others|]. intros _. apply (l_consume L).
   Qed.
 
-  Lemma L_dec_prim abort p pa : P (dec_prim abort p pa).
+  Lemma L_dec_prim abort p pa : (abort = false -> wn = true) -> P (dec_prim abort p pa).
   Proof.
+    intros Hab.
     unfold dec_prim. apply (l_bind L); [apply L_bytes_parsed|]. intros _.
     apply (l_bind L); [apply L_readn|]. intros bs.
     destruct (valid p _).
     - apply (l_bind L); [apply (l_emit L); exact I|]. intros _. apply (l_ret L).
     - destruct abort; [apply (l_fail L)|].
       apply (l_bind L); [apply (l_emit L); exact I|]. intros _.
-      apply (l_bind L); [apply (l_emit L); exact I|]. intros _. apply (l_ret L).
+      apply (l_bind L); [apply (l_emit L); apply Hab; reflexivity|]. intros _. apply (l_ret L).
   Qed.
 
-  Theorem lclosed_closed abort : closed abort (@P).
+  Theorem lclosed_closed abort : (abort = false -> wn = true) -> closed abort (@P).
   Proof.
-    constructor; intros.
+    intros Hab. constructor; intros.
     - apply (l_ret L).
     - apply (l_bind L); assumption.
     - apply (l_get L).
@@ -114,16 +119,31 @@ Section Low.
     - apply (l_internal L).
     - apply (l_fuel L).
     - apply (l_emit L). exact I.
-    - apply L_dec_prim.
+    - apply L_dec_prim. exact Hab.
     - apply (l_new_sc L).
-    - apply L_set_constraint.
+    - apply L_set_constraint. exact Hab.
     - apply (l_append_lst L).
     - apply (l_set_lst L).
-    - apply L_assert_done.
+    - apply L_assert_done. exact Hab.
     - apply (l_catch L); assumption.
-    - destruct abort; [apply (l_fail L)|apply (l_emit L); exact I].
+    - destruct abort; [apply (l_fail L)|apply (l_emit L); apply Hab; reflexivity].
   Qed.
 
-  Theorem L_dec_root T abort r : P (dec_root T abort r).
-  Proof. apply P_dec_root. apply lclosed_closed. Qed.
+  Theorem L_dec_root T abort r : (abort = false -> wn = true) -> P (dec_root T abort r).
+  Proof. intros Hab. apply P_dec_root. apply lclosed_closed. exact Hab. Qed.
 End Low.
+
+(** the usual case: closed under every operation, warnings included - holds of the decoder in both modes *)
+Module Both.
+  Notation lclosed P := (lclosedW P true).
+  Definition L_dec_prim P (L : lclosed P) abort p pa : P _ (dec_prim abort p pa) := L_dec_prim P true L abort p pa (fun _ => eq_refl).
+  Definition lclosed_closed P (L : lclosed P) abort : closed abort P := lclosed_closed P true L abort (fun _ => eq_refl).
+  Definition L_dec_root P (L : lclosed P) T abort r : P _ (dec_root T abort r) := L_dec_root P true L T abort r (fun _ => eq_refl).
+End Both.
+
+(** closed under every operation but the emission of a warning - holds of the strict-mode decoder *)
+Theorem strict_closed P : lclosedW P false -> closed true P.
+Proof. intros L. apply (lclosed_closed P false L true). discriminate. Qed.
+Theorem strict_dec_root P : lclosedW P false -> forall T r, P _ (dec_root T true r).
+Proof. intros L T r. apply (L_dec_root P false L T true r). discriminate. Qed.
+Export Both.
